@@ -5,10 +5,10 @@ import CalicoVerif.Gen.C27
   `new`
   `srcs`                                        → descending source numbers, `L` suffix if local
   `decl <lname> <initTok> <dfltTok> <zeroTok>`  → `<Name> <local><die><nonzero>` | `unknown`
-  `upd <src> <key>=<hexraw>:<tok> …`            → `changed=0|1|?` | `err` | `undeclared`   (UpdateFrom)
-  `all s<src> <kv> … s<src> <kv> …`             → `changed:<names>` | `changed:?` | `err` | `undeclared`
+  `upd <src> <key>=<hexraw>:<tok> …`            → `changed=0|1` | `err` | `undeclared`   (UpdateFrom)
+  `all s<src> <kv> … s<src> <kv> …`             → `changed:<names>` | `err` | `undeclared`
                                                    (UpdateFromConfigUpdate)
-  `get`                                         → `err=<b> f:<Name=tok,…> r:<key=hexraw,…>` | `err=<b> poisoned`
+  `get`                                         → `err=<b> f:<Name=tok,…> r:<key=hexraw,…>`
 `tok` is `!` when the real `Parse` fails, `-` for unknown keys.
 -/
 open CalicoVerif CalicoVerif.C27 CalicoVerif.Proto
@@ -32,7 +32,8 @@ def lowered : List (String × Meta) := Gen.table.map (fun r => (r.1.name.toLower
 def DS.ctx (d : DS) : Ctx :=
   { lower := String.toLower
     known := fun l => lowered.lookup l
-    parse := fun m raw => (d.graph.lookup (m.name, raw)).join }
+    parse := fun m raw => (d.graph.lookup (m.name, raw)).join
+    keyLe := fun a b => decide (a ≤ b) }
 
 def DS.render (d : DS) (l : String) (v : Option Val) : String :=
   match d.decls.lookup l with
@@ -113,7 +114,7 @@ def insertSortedS (x : String) : List String → List String
   | y :: ys => if x < y then x :: y :: ys else y :: insertSortedS x ys
 
 def showChanged : Changed → String
-  | .yes => "changed=1" | .no => "changed=0" | .unknown => "changed=?" | .failed => "err"
+  | .yes => "changed=1" | .no => "changed=0" | .failed => "err"
 
 /-- Split the words of an `all` op into per-source groups. -/
 def groupAll : List String → Option Src → List (String × String × String) →
@@ -168,18 +169,15 @@ def step (d : DS) (line : String) : DS × String :=
         let (cfg', ch, names) := d1.cfg.updateAll d1.ctx d1.render all
         let out := match ch with
           | .failed => "err"
-          | .unknown => "changed:?"
           | _ =>
             let disp := names.map (fun l => ((d1.decls.lookup l).map (·.name)).getD l)
             "changed:" ++ joinWith "," (disp.foldr insertSortedS [])
         ({ d1 with cfg := cfg' }, out)
   | ["get"] =>
     let e := showBool d.cfg.err
-    if d.cfg.poisoned then (d, s!"err={e} poisoned")
-    else
-      let fs := d.decls.map (fun p => p.2.name ++ "=" ++ d.render p.1 (d.cfg.fields.lookup p.1))
-      let rs := (sortKV d.cfg.rawValues).map (fun p => p.1 ++ "=" ++ hex p.2)
-      (d, s!"err={e} f:{joinWith "," fs} r:{joinWith "," rs}")
+    let fs := d.decls.map (fun p => p.2.name ++ "=" ++ d.render p.1 (d.cfg.fields.lookup p.1))
+    let rs := (sortKV d.cfg.rawValues).map (fun p => p.1 ++ "=" ++ hex p.2)
+    (d, s!"err={e} f:{joinWith "," fs} r:{joinWith "," rs}")
   | _ => (d, "bad-op")
 
 def main : IO Unit := run step DS.init
